@@ -325,7 +325,43 @@ def hand_built_annotated(ctx):
         ctx.count("hand-built-annotated-queries")
 
 
+def typed_queries(ctx, table):
+    """queries the type follower has worked on (defaults filled in, also inside the defaults of nested / stage lambdas, callbacks'
+    rewrites): the same query built twice, built from a copy, and its deep copy hash alike - the table sees them all"""
+    import copy
+    from typing import Iterable
+
+    from func_adl import EventDataset
+    from func_adl.ast.ast_hash import calc_ast_hash
+
+    class Jet:
+        def pt(self, scale: float = 1.0) -> float: ...
+
+    class Ev:
+        def rho(self, kind: int = 0) -> float: ...
+        def jets(self, cone: float = 0.4) -> Iterable[Jet]: ...
+
+    class DS(EventDataset):
+        async def execute_result_async(self, a, title=None):
+            return a
+
+    for text in ("lambda e: e.jets().Select(lambda j, *, r=e.rho(): j.pt() - r)", "lambda e, *, k=1: e.rho() * k", "lambda e: e.jets().Where(lambda j, r=e.rho(1): j.pt(2.0) > r).Count()",
+                 "lambda e: e.jets(cone=0.6).Select(lambda j: (j.pt(), e.rho()))", "lambda e: {'n': e.jets().Count(), 'rho': e.rho()}"):
+        ctx.case("typed-query:" + text, True)
+        ctx.count("typed-queries-hashed")
+        try:
+            a, b = DS(Ev).Select(text).query_ast, DS(Ev).Select(text).query_ast
+        except Exception as e:
+            ctx.count("typed-queries:build-raised:" + type(e).__name__)
+            continue
+        hs = {"built": table.see(a, "typed-query"), "built again": table.see(b, "typed-query"), "deep copy": calc_ast_hash(copy.deepcopy(a)), "fields-only copy": calc_ast_hash(astx.clone(a))}
+        if len(set(hs.values())) != 1:
+            ctx.violation("same-structure-different-hash:typed-query", f"{text}: one query, hashes {hs}", {"text": text})
+
+
 def shard_main(ctx):
+    if ctx.shard in (0, 2):
+        typed_queries(ctx, Table(ctx))
     if ctx.shard == 0:
         hand_built_annotated(ctx)
     if ctx.shard in (0, 1, 3):
